@@ -250,6 +250,11 @@ def fam_stream_upload_failing(rng, n):
                 sc = copy.deepcopy(sc0)
                 sc['cancel'] = {'how': 'future', 'x': 0, 'gate': g}
                 jobs += S.det_schedules(sc, 0, rng)
+            # the submission itself fails midway (the source raises) with part 1 in flight
+            for nth in (3, 4):
+                sc = copy.deepcopy(sc0)
+                sc['faults'] = [{'on': 'src_read', 'nth': nth, 'x': 0}]
+                jobs += S.det_schedules(sc, 0, rng)
     return ('stream-upload-failing', jobs)
 
 
@@ -314,10 +319,15 @@ def fam_cancel_all(rng, n):
     with-block through an exception or Ctrl-C at a random step."""
     jobs = []
     for sc in S.mixes(rng, n):
-        how = rng.choice(['shutdown', 'exit-exc', 'exit-kbi', 'kbi-result'])
+        how = rng.choice(['shutdown', 'exit-exc', 'exit-kbi', 'kbi-result', 'kbi-shutdown'])
         sc['cancel'] = {'how': how, 'gate': rng.randint(1, 120), 'x': 0,
                         'msg': f'msg-{how}'}
-        if how != 'shutdown':
+        if how == 'exit-exc':
+            sc['cancel']['exc'] = rng.choice(['ValueError', 'SystemExit', 'BaseException'])
+        if how == 'kbi-shutdown':
+            # Ctrl-C while the user waits in shutdown() (plain call or leaving the with-block)
+            sc['user'] = {'results': False, 'mode': rng.choice(['with', 'plain'])}
+        elif how != 'shutdown':
             sc['user'] = {'mode': 'with'}
         else:
             sc['user'] = {'results': False}
@@ -467,6 +477,7 @@ def families(pid, tier, rng):
                        stride=1, per=2 * k),
             fam_failing_abort(rng, 3 * k),
             fam_slow_requests(S.MULTIPART, rng, 1 * k),
+            fam_stream_upload_failing(rng, 1 * k),
         ]
     if pid == 'C06':
         names = ['dl-path-mp', 'dl-path-1', 'dl-empty']
@@ -488,6 +499,7 @@ def families(pid, tier, rng):
                        stride=2 if not T else 1),
             fam_mixes(rng, 15 * k, 2, cancels=True),
             fam_slow_requests(['up-path-mp', 'copy-mp', 'dl-path-mp', 'dl-ns-mp'], rng, 1),
+            fam_cancel_all(rng, 40 * k),
         ]
     if pid == 'C08':
         two = {'subs': TWO_SUBS}
@@ -507,6 +519,7 @@ def families(pid, tier, rng):
                                 stride=2 if not T else 1)
         fams.append(('two-subscribers-faults-cancels', j))
         fams.append(fam_provide(rng, 4 * k))
+        fams.append(fam_stream_upload_failing(rng, 1 * k))
         return fams
     if pid == 'C09':
         j2 = []
@@ -566,7 +579,8 @@ def families(pid, tier, rng):
 
 CLAUSES = {
     'C01': 'C01_', 'C02': ('C02_', 'C16_'), 'C03': ('C03_', 'C05_', 'C06_'),
-    'C04': 'C04_', 'C05': 'C05_',
+    # (a transfer that hangs with its multipart upload open is an orphaned upload)
+    'C04': 'C04_', 'C05': ('C05_', 'C04_NoDeadlock'),
     'C06': 'C06_', 'C07': ('C07_', 'C05_', 'C06_', 'C04_'), 'C08': ('C08_', 'C04_'), 'C09': 'C09_',
     'C10': ('C10_', 'C11_', 'C16_', 'C04_'),
     'C11': 'C11_', 'C12': 'C12_', 'C14': ('C14_', 'C01_PartsTileSource', 'C01_PartsAscending1toN', 'C01_ObjectEqualsSource'), 'C16': 'C16_', 'C17': 'C17_',
